@@ -395,6 +395,54 @@ impl Family for A1 {
                 out.count("probe.c06_pinned_reader", 1);
             }
         }
+        // ---- non-canonical public-key encodings (C06, C01): RFC 7748 masks bit 255 of a u-coordinate only
+        // inside X25519; Noise mixes the key bytes into the handshake hash exactly as given, so a key
+        // presented with that bit set gives another file than its canonical twin, and both are legal
+        if let (Mode::Key { s_priv, r_priv, e_priv: Some(e), payload: Some(p), omit_e_pub: false }, true) = (&s.mode, public_api) {
+            if s.entropy_tag % 4 == 0 && pt.len() <= 200_000 {
+                use kestrel_crypto::{AsymFileFormat, PayloadKey, PrivateKey, PublicKey};
+                let which = (s.entropy_tag >> 2) % 3;
+                let mut spk_b = pubkey_of(&s_priv.a32());
+                let mut rpk_b = pubkey_of(&r_priv.a32());
+                if which != 0 {
+                    spk_b[31] |= 0x80;
+                }
+                if which != 1 {
+                    rpk_b[31] |= 0x80;
+                }
+                let want = crate::refmodel::format::write_key_file(
+                    &crate::refmodel::format::KeyParams { s_priv: &s_priv.a32(), s_pub_claimed: &spk_b, e_priv: &e.a32(), e_pub: &pubkey_of(&e.a32()), recipient: &rpk_b, payload_key: &p.a32() },
+                    &pt,
+                    &full_chunking(pt.len(), 65536),
+                );
+                let (sk, ek, rk_) = (PrivateKey::try_from(&s_priv.0[..]).unwrap(), PrivateKey::try_from(&e.0[..]).unwrap(), PrivateKey::try_from(&r_priv.0[..]).unwrap());
+                let (spk, rpk, epk) = (PublicKey::try_from(&spk_b[..]).unwrap(), PublicKey::try_from(&rpk_b[..]).unwrap(), PublicKey::try_from(&pubkey_of(&e.a32())[..]).unwrap());
+                let pk = PayloadKey::new(&p.0);
+                let mut got = Vec::new();
+                let r = run_guarded(|| kestrel_crypto::encrypt::key_encrypt(&mut &pt[..], &mut got, &sk, &spk, &rpk, Some(&ek), Some(&epk), Some(&pk), AsymFileFormat::V1).map_err(|e| e.to_string()));
+                out.count("probe.c06_noncanonical_public_keys", 1);
+                let what = ["the recipient's public key", "the sender's public key", "both public keys"][which as usize];
+                match r {
+                    Guarded::Returned(Ok(())) => {
+                        if got != want {
+                            out.violations.push(viol("C06", "noncanonical_key_bytes_not_hashed_as_given", format!("with bit 255 set in {}, the file differs from the documented format at byte {} (Noise hashes key bytes as given)", what, first_diff(&got, &want))));
+                        }
+                    }
+                    o => out.violations.push(viol("C06", "noncanonical_key_refused", format!("encryption with bit 255 set in {} did not succeed: {}", what, match o { Guarded::Returned(Err(e)) => e, Guarded::Panicked(m) => format!("panic {}", m), _ => "hang".into() }))),
+                }
+                // and the conforming file decrypts, reporting the sender's key bytes as they were given
+                let mut back = Vec::new();
+                let d = run_guarded(|| kestrel_crypto::decrypt::key_decrypt(&mut &want[..], &mut back, &rk_, &rpk, AsymFileFormat::V1).map(|k| k.as_bytes().to_vec()).map_err(|e| e.to_string()));
+                match d {
+                    Guarded::Returned(Ok(snd)) => {
+                        if back != pt || snd[..] != spk_b[..] {
+                            out.violations.push(viol("C06", "noncanonical_key_file_read_differently", format!("a conforming file made with bit 255 set in {} decrypts to {} bytes (P has {}) from sender {}", what, back.len(), pt.len(), to_hex(&snd))));
+                        }
+                    }
+                    o => out.violations.push(viol("C06", "noncanonical_key_file_rejected", format!("a conforming file made with bit 255 set in {} was rejected: {}", what, match o { Guarded::Returned(Err(e)) => e, Guarded::Panicked(m) => format!("panic {}", m), _ => "hang".into() }))),
+                }
+            }
+        }
         // ---- reverse direction (C06): reference-written file with an arbitrary legal chunking
         let rev_mode = match &s.mode {
             Mode::Key { s_priv, r_priv, e_priv: None, .. } | Mode::Key { s_priv, r_priv, omit_e_pub: true, .. } => {
